@@ -26,6 +26,14 @@ CONFIGS = {
 }
 
 
+def set_repo(path, cache_dir):
+    """Point the facts builder at another checkout (sensitivity self-tests on a scratch copy) with its own cache."""
+    global REPO, CACHE
+    REPO = path
+    CACHE = cache_dir
+    _meta_cache.clear()
+
+
 def sh(cmd, **kw):
     return subprocess.run(cmd, stdout=subprocess.PIPE, stderr=subprocess.STDOUT, text=True, **kw)
 
